@@ -39,6 +39,18 @@ pub fn pool_with_edge_space() -> Vec<Delims> {
     POOL.iter().chain(POOL_EDGE_SPACE.iter()).cloned().collect()
 }
 
+/// an identifier written with full-width characters only (no ASCII byte)
+pub fn fullwidth(id: &str) -> String {
+    id.chars()
+        .map(|c| match c {
+            '0'..='9' => char::from_u32(0xFF10 + (c as u32 - '0' as u32)).unwrap(),
+            'a'..='z' => char::from_u32(0xFF41 + (c as u32 - 'a' as u32)).unwrap(),
+            'A'..='Z' => char::from_u32(0xFF21 + (c as u32 - 'A' as u32)).unwrap(),
+            _ => '＿',
+        })
+        .collect()
+}
+
 fn push_unique(v: &mut Vec<String>, s: String) {
     if !s.is_empty() && !v.contains(&s) {
         v.push(s);
@@ -59,6 +71,17 @@ pub fn tok_atoms(ds: &str, de: &str, fillers: &[&str], with_prefixes: bool) -> V
             let cs: Vec<char> = d.chars().collect();
             for l in 2..cs.len() {
                 push_unique(&mut v, cs[..l].iter().collect());
+            }
+        }
+    }
+    // where a suffix of one delimiter is a prefix of another (or of itself), the rest of the
+    // second one: together with the first it forms an overlapping occurrence
+    for (a, b) in [(ds, de), (de, ds), (ds, ds), (de, de)] {
+        let bc: Vec<char> = b.chars().collect();
+        for k in 1..bc.len() {
+            let pre: String = bc[..k].iter().collect();
+            if a.ends_with(&pre) {
+                push_unique(&mut v, bc[k..].iter().collect());
             }
         }
     }
@@ -200,7 +223,8 @@ pub enum Item {
     /// it cannot be unwrapped (three lines: tag, code, tag)
     ShortUnwrap { kind: Kind },
     /// two elements on one line: side by side, or the second nested in the first
-    Inline2 { k1: Kind, k2: Kind, nested: bool },
+    /// `touching` (only when not nested): no byte between the first closing and the second opening tag
+    Inline2 { k1: Kind, k2: Kind, nested: bool, touching: bool },
     /// two nested default-strategy blocks whose tags share lines: `<o1><o2>` / body / `</c2></c1>`
     Block2 { k1: Kind, k2: Kind, body: Vec<Item> },
     /// code? <tag>content</tag> code?   on one line
@@ -227,6 +251,8 @@ pub struct AstParams {
     pub short_unwrap: bool,
     /// two elements starting on the same line (Inline2 / Block2)
     pub shared_lines: bool,
+    /// kind pairs used for Inline2 / Block2 (empty = all pairs of inline_kinds)
+    pub shared_pairs: Vec<(Kind, Kind)>,
 }
 
 pub fn size(items: &[Item]) -> usize {
@@ -250,7 +276,7 @@ enum Opt {
     Inline(Kind, bool, bool, bool),
     Block(Kind, bool),
     Short(Kind),
-    Inline2(Kind, Kind, bool),
+    Inline2(Kind, Kind, bool, bool),
     Block2(Kind, Kind),
 }
 
@@ -287,13 +313,20 @@ fn gen_list(ch: &mut Chooser, p: &AstParams, budget: &mut usize, depth: usize) -
             opts.push(Opt::Inline(k, false, false, true));
         }
         if p.shared_lines {
-            for &k1 in &p.inline_kinds {
-                for &k2 in &p.inline_kinds {
-                    opts.push(Opt::Inline2(k1, k2, false));
-                    opts.push(Opt::Inline2(k1, k2, true));
-                    if depth < p.max_depth && *budget >= 2 {
-                        opts.push(Opt::Block2(k1, k2));
+            let mut pairs = p.shared_pairs.clone();
+            if pairs.is_empty() {
+                for &k1 in &p.inline_kinds {
+                    for &k2 in &p.inline_kinds {
+                        pairs.push((k1, k2));
                     }
+                }
+            }
+            for (k1, k2) in pairs {
+                opts.push(Opt::Inline2(k1, k2, false, false));
+                opts.push(Opt::Inline2(k1, k2, true, false));
+                opts.push(Opt::Inline2(k1, k2, false, true));
+                if depth < p.max_depth && *budget >= 2 {
+                    opts.push(Opt::Block2(k1, k2));
                 }
             }
         }
@@ -341,9 +374,14 @@ fn gen_list(ch: &mut Chooser, p: &AstParams, budget: &mut usize, depth: usize) -
                 *budget -= 3;
                 v.push(Item::ShortUnwrap { kind });
             }
-            Opt::Inline2(k1, k2, nested) => {
+            Opt::Inline2(k1, k2, nested, touching) => {
                 *budget -= 1;
-                v.push(Item::Inline2 { k1, k2, nested });
+                v.push(Item::Inline2 {
+                    k1,
+                    k2,
+                    nested,
+                    touching,
+                });
             }
             Opt::Block2(k1, k2) => {
                 *budget -= 2;
@@ -464,7 +502,8 @@ fn render_list(
                 } else if *rich {
                     format!("{}{}  =  1;  ", ind(level + *extra as usize), id)
                 } else if *mb {
-                    format!("{}{}あ🧹;", ind(level + *extra as usize), id)
+                    // a line without any ASCII byte except its indentation, ending in a multi-byte character
+                    format!("{}{}開", ind(level + *extra as usize), fullwidth(&id))
                 } else {
                     format!("{}{}();", ind(level + *extra as usize), id)
                 };
@@ -535,7 +574,12 @@ fn render_list(
                 });
                 push_line(r, &text, id, owners, 6, Some(idx));
             }
-            Item::Inline2 { k1, k2, nested } => {
+            Item::Inline2 {
+                k1,
+                k2,
+                nested,
+                touching,
+            } => {
                 let id = next_id(ctr);
                 let mk = |k: &Kind, n: usize| -> (String, String) {
                     let extra = if o.tag_ids { format!(" c=\"{}x{}\"", id, n) } else { String::new() };
@@ -570,7 +614,9 @@ fn render_list(
                     a1 = span(&mut text, &o1);
                     text.push_str(&format!(" {}i ", id));
                     a2 = span(&mut text, &c1);
-                    text.push_str(&format!(" {}m ", id));
+                    if !*touching {
+                        text.push_str(&format!(" {}m ", id));
+                    }
                     b1 = span(&mut text, &o2);
                     text.push_str(&format!(" {}j ", id));
                     b2 = span(&mut text, &c2);
@@ -712,7 +758,14 @@ fn render_list(
                     let wid = next_id(ctr);
                     let w = push_line(
                         r,
-                        &if o.plain { format!("{}if {}", ind(level), wid) } else { format!("{}if ({}) {{", ind(level), wid) },
+                        &if o.plain {
+                            format!("{}if {}", ind(level), wid)
+                        } else if *ctr % 2 == 1 {
+                            // every other wrapper line ends in a multi-byte character
+                            format!("{}if ({}) {{ // 開", ind(level), wid)
+                        } else {
+                            format!("{}if ({}) {{", ind(level), wid)
+                        },
                         wid,
                         owners,
                         4,
